@@ -65,7 +65,14 @@ MeanChargePositive == Small => SumZW(Z) > 0
 \* without a donor the CX rates are irrelevant
 NoDonorNoCx == dn = 0 => \A z \in 1..Z : QR(z) = Alpha(z)
 
-EmitCase == PrintT(ToJson([span |-> span, pat |-> a, sexp |-> [z \in 1..Z |-> SExp(z - 1)], aexp |-> [z \in 1..Z |-> AExp(z)], logw |-> [z \in 1..(Z + 1) |-> LogW(z - 1)], Z |-> Z, S |-> [z \in 1..Z |-> S(z - 1)], alpha |-> [z \in 1..Z |-> Alpha(z)], cx |-> [z \in 1..Z |-> Cx(z)],
+\* ---- neutrality matching: the species given by the caller carry the fraction g of the electron charge; the matched element
+\* takes the rest, (1 - g) n_e, shared out by the balance fractions - and nothing when the given species already carry more
+\* charge than there are electrons (g > 1): densities are never negative
+GivenFracs == << <<1, 15>>, <<9, 10>>, <<3, 2>> >>
+BulkCharge(g) == IF g[1] < g[2] THEN <<g[2] - g[1], g[2]>> ELSE <<0, 1>>
+BulkNonNegative == \A i \in DOMAIN GivenFracs : BulkCharge(GivenFracs[i])[1] >= 0 /\ BulkCharge(GivenFracs[i])[1] <= BulkCharge(GivenFracs[i])[2]
+
+EmitCase == PrintT(ToJson([given |-> [i \in DOMAIN GivenFracs |-> [g |-> GivenFracs[i], bulk |-> BulkCharge(GivenFracs[i])]], span |-> span, pat |-> a, sexp |-> [z \in 1..Z |-> SExp(z - 1)], aexp |-> [z \in 1..Z |-> AExp(z)], logw |-> [z \in 1..(Z + 1) |-> LogW(z - 1)], Z |-> Z, S |-> [z \in 1..Z |-> S(z - 1)], alpha |-> [z \in 1..Z |-> Alpha(z)], cx |-> [z \in 1..Z |-> Cx(z)],
                            donor |-> Donor(dn), dq |-> dq, w |-> IF Small THEN [z \in 1..(Z + 1) |-> Wt(z - 1)] ELSE <<>>,
                            total |-> IF Small THEN Total ELSE 0, zw |-> IF Small THEN SumZW(Z) ELSE 0]))
 =============================================================================
